@@ -315,3 +315,24 @@ func (c *Chain) Deliver(msg sdk.Msg) (res *sdk.Result, err error) {
 	write()
 	return res, nil
 }
+
+// EndBlockObserve ends and commits the open block and points c.Ctx at the
+// committed state (check-state context) so that the harness can observe what
+// EndBlock did before the next BeginBlock cleans it up. Follow with NextBlock.
+func (c *Chain) EndBlockObserve() {
+	if c.InBlock {
+		c.EndBlockOnly()
+	}
+	c.Ctx = c.App.BaseApp.NewContext(true, c.header())
+}
+
+// EndBlockObserveRecover is EndBlockObserve with panics turned into an error.
+func (c *Chain) EndBlockObserveRecover() (err error) {
+	defer func() {
+		if r := recover(); r != nil {
+			err = fmt.Errorf("panic in end-block processing at height %d: %v", c.Height, r)
+		}
+	}()
+	c.EndBlockObserve()
+	return nil
+}
